@@ -70,7 +70,7 @@ CHECKS = {
    design="6", technique="Coq proof (version/prefix invariant over all interleavings) + trace-equality tie",
    note="as C04; when the time-bounded reload loop gives up on a handle that already has a snapshot, the handle keeps it and reload reports success (the property's 'or reports failure' alternative is used for the first load only)"),
  "C16": dict(
-   text="Coq theorems (all schedules): C16_quiescent_clean = c16_all_traces -- nothing panics, Close succeeds on any stack, and whenever no handle is inside a call and nobody crashed the directory is exactly tables.list plus the tables it names; C16_idle_owns_nothing -- also after crashes of others an idle handle owns no lock and no temp file. Tied trace-for-trace; Clean is judged on Go traces by the extracted predicate only",
+   text="Coq theorems (all schedules): C16_quiescent_clean = c16_all_traces -- nothing panics, Close succeeds on any stack, and whenever no handle is inside a call and nobody crashed the directory is exactly tables.list plus the tables it names; C16_idle_owns_nothing -- also after crashes of others an idle handle owns no lock and no temp file. Tied trace-for-trace; Clean is judged on Go traces by the extracted predicate only. Additionally the real directory is listed at every idle point of the sequential histories of real transactions (deletions, compactions whose result is empty, expiry, refused transactions, a second handle): any file besides tables.list and the tables it names is a violation with the history as the replay",
    design="6", technique="Coq proof (ownership logic + residue judgement over all interleavings) + trace-equality tie",
    note="as C04"),
  "C15": dict(
